@@ -167,6 +167,11 @@ PlanView view(const Json &plan) {
     else if (k == "simout_pre") { unsigned i = (unsigned)(op.getU64("idx") & 7); v.simoutPrePresent[i] = true; v.simoutPre[i] = sim::fromHex(op.getStr("hex")); }
     else if (k == "arena") { v.dirtyArena = true; v.arenaSeed = op.getU64("seed"); }
   }
+  // Every run started from reset has oreg[3:0] == 0 at instruction boundaries (oreg is 0, or the
+  // result of PFIX/NFIX, which shift by four).  The RTL decodes OPR from the instruction's own
+  // operand nibble and relies on that invariant, and C03/C16-program runs are "started from reset",
+  // so teleports in those modes stay inside it.  C02 ("from any architectural state") does not mask.
+  if (v.mode != "c02") for (auto &t : v.teleports) t.o &= ~15u;
   while (v.image.size() % 4) v.image.push_back('\0');
   std::sort(v.teleports.begin(), v.teleports.end(), [](const Teleport &x, const Teleport &y) { return x.at < y.at; });
   std::sort(v.pulses.begin(), v.pulses.end(), [](const Pulse &x, const Pulse &y) { return x.at < y.at; });
@@ -343,6 +348,16 @@ public:
 
   Json materialise(const Json &plan) override {
     Json p = plan;
+    if (p.at("config").getStr("mode") == "c16free") {
+      Json ops = Json::array();
+      for (auto &op : p["ops"].a) {
+        if (op.getStr("op") != "free") { ops.push(op); continue; }
+        Json fc = Json::object(); fc["op"] = "free_cfg"; fc["undef"] = op.getBool("undef", true); ops.push(fc);
+        for (auto &t : expandFree(op.getU64("seed"), 1 + op.getU64("period") % 8, p.at("config").getU64("max_steps", 2000))) ops.push(tpToJson(t));
+      }
+      p["ops"] = ops;
+      return p;
+    }
     for (auto &op : p["ops"].a) {
       if (op.getStr("op") == "image" && op.has("corpus")) {
         if (auto *c = corpusByName(op.getStr("corpus"))) { op["hex"] = sim::toHex(c->image); op["from_corpus"] = op.getStr("corpus"); op.erase("corpus"); }
@@ -350,7 +365,7 @@ public:
     }
     return p;
   }
-  bool removable(const Json &op) override { return op.getStr("op") != "image"; }
+  bool removable(const Json &op) override { return op.getStr("op") != "image" && op.getStr("op") != "free_cfg"; }
 
   //-------------------------------------------------------------------------------------------
   // Execution
@@ -537,11 +552,16 @@ public:
 
   //----------------------------- C03 / C16 program mode ----------------------------------------
   // Service a system call on an RTL memory exactly as a testbench must.
-  static void serviceSyscall(uint32_t *mem, uint32_t no, hexref::Io &io, bool &exited, uint32_t &exitValue) {
+  // The request is sampled before the edge that retires the SVC; a READ's result is written to
+  // memory right after that edge (pendAddr/pendVal), which is when the ISA's SVC writes it: written
+  // earlier it could replace the very instruction that is being retired (a program whose stack
+  // pointer points into its own code), and that would be the shim's doing, not the processor's.
+  static void serviceSyscall(uint32_t *mem, uint32_t no, hexref::Io &io, bool &exited, uint32_t &exitValue, bool &pend, uint32_t &pendAddr, uint32_t &pendVal) {
     uint32_t sp = mem[1];
+    pend = false;
     if (no == 0) { exitValue = mem[(sp + 2) & (RTLW - 1)]; exited = true; }
     else if (no == 1) io.write((uint8_t)(mem[(sp + 2) & (RTLW - 1)] & 0xFF), (int32_t)mem[(sp + 3) & (RTLW - 1)]);
-    else if (no == 2) mem[(sp + 1) & (RTLW - 1)] = io.read((int32_t)mem[(sp + 2) & (RTLW - 1)]) & 0xFF;
+    else if (no == 2) { pend = true; pendAddr = (sp + 1) & (RTLW - 1); pendVal = io.read((int32_t)mem[(sp + 2) & (RTLW - 1)]) & 0xFF; }
   }
 
   Outcome runRtl(const PlanView &v, bool three) {
@@ -656,14 +676,16 @@ public:
       bool isSvc = inst == 0xD3;       // in-domain, so oreg is 0 here when the operand nibble is 3
       // Pre-edge outputs.
       if (three) { compareOutputs(o, clk); if (o.violated) break; }
+      if (three) isSvc = sv.sysValid();      // C16 judges the replicas against each other only
       if (sv.sysValid() != isSvc) { o.violate("state_diverged", "clock " + std::to_string(clk) + ": o_syscall_valid=" + std::to_string(sv.sysValid()) + " but the fetched byte is " + hx(inst).substr(6), "state_diverged:syscall_valid"); break; }
-      if (isSvc && sv.sysNo() != (ref.areg & 3)) { o.violate("state_diverged", "clock " + std::to_string(clk) + ": o_syscall=" + std::to_string(sv.sysNo()) + " areg=" + hx(ref.areg), "state_diverged:syscall_no"); break; }
+      if (!three && isSvc && sv.sysNo() != (ref.areg & 3)) { o.violate("state_diverged", "clock " + std::to_string(clk) + ": o_syscall=" + std::to_string(sv.sysNo()) + " areg=" + hx(ref.areg), "state_diverged:syscall_no"); break; }
       bool we = sv.dValid() && sv.dWe();
       uint32_t waddr = sv.dAddr(), wdata = sv.dData();
       bool rtlExit = false; uint32_t rtlExitValue = 0;
+      bool pend1 = false, pend2 = false, pend3 = false; uint32_t pa1 = 0, pv1 = 0, pa2 = 0, pv2 = 0, pa3 = 0, pv3 = 0;
       if (isSvc) {
-        serviceSyscall(sv.mem(), sv.sysNo(), rtlIo, rtlExit, rtlExitValue);
-        if (three) { bool e2 = false; uint32_t x2 = 0; serviceSyscall(g_v->mem(), g_v->sysNo(), rtlIo2, e2, x2); serviceSyscall(g_sy->mem(), g_sy->sysNo(), rtlIo3, e2, x2); }
+        serviceSyscall(sv.mem(), sv.sysNo(), rtlIo, rtlExit, rtlExitValue, pend1, pa1, pv1);
+        if (three) { bool e2 = false; uint32_t x2 = 0; serviceSyscall(g_v->mem(), g_v->sysNo(), rtlIo2, e2, x2, pend2, pa2, pv2); serviceSyscall(g_sy->mem(), g_sy->sysNo(), rtlIo3, e2, x2, pend3, pa3, pv3); }
         o.nontrivial = true;
         o.count(std::string("probe.syscall") + std::to_string(ref.areg & 3));
       }
@@ -676,6 +698,9 @@ public:
       if (p->verifCycles() != cyc0 + 1) { o.note = "cut:oracle_step_count"; break; }
       // Rising edge.
       edgeAll();
+      if (pend1) { sv.mem()[pa1] = pv1; sv.settle(); }
+      if (pend2) { g_v->mem()[pa2] = pv2; g_v->settle(); }
+      if (pend3) { g_sy->mem()[pa3] = pv3; g_sy->settle(); }
       {
         uint32_t saveA = ref.areg; ref.areg = aBefore;
         stateKey(o, seen, ref, inst, chain, operand, ref.last.taken, imgWords, ref.last);
@@ -684,33 +709,45 @@ public:
       if ((inst >> 4) >= 0xE) chain++; else chain = 0;
       if (chain >= 8) o.count("probe.prefix_chain_ge8");
       if ((inst >> 4) == 0xB && aBefore == 0x80000000u) o.count("probe.brn_int_min");
+      if (three && (sv.pc() != p->verifPC() || sv.areg() != p->verifAreg() || sv.breg() != p->verifBreg() || sv.oreg() != p->verifOreg())) {
+        // processor.sv disagrees with the simulator: that is C03's subject.  The monitor no longer
+        // describes the replicas, so this run stops here; the replicas agreed with each other so far.
+        compareReplicas(o, clk, "after edge");
+        o.note = "cut:sv_differs_from_simulator"; o.count("cut.sv_differs_from_simulator");
+        break;
+      }
       if (sv.pc() != p->verifPC() || sv.areg() != p->verifAreg() || sv.breg() != p->verifBreg() || sv.oreg() != p->verifOreg()) {
         o.violate("state_diverged", "clock " + std::to_string(clk) + " inst " + hx(inst).substr(6) + ": rtl pc/a/b/o=" + hx(sv.pc()) + "/" + hx(sv.areg()) + "/" + hx(sv.breg()) + "/" + hx(sv.oreg()) +
                   " hexsim=" + hx(p->verifPC()) + "/" + hx(p->verifAreg()) + "/" + hx(p->verifBreg()) + "/" + hx(p->verifOreg()), "state_diverged:op" + std::to_string(inst >> 4));
         break;
       }
       bool simWrote = ref.last.wrote && !ref.last.syscall;
+      if (three && (we != simWrote || (we && waddr != ref.last.waddr))) { compareReplicas(o, clk, "after edge"); o.note = "cut:sv_differs_from_simulator"; o.count("cut.sv_differs_from_simulator"); break; }
       if (we != simWrote) { o.violate("state_diverged", "clock " + std::to_string(clk) + " inst " + hx(inst).substr(6) + ": rtl write enable " + std::to_string(we) + ", simulator stored " + std::to_string(simWrote), "state_diverged:we"); break; }
       if (we) {
-        if (waddr != ref.last.waddr || sv.mem()[waddr] != wdata || wdata != p->verifMemory()[ref.last.waddr]) {
+        if (!three && (waddr != ref.last.waddr || sv.mem()[waddr] != wdata || wdata != p->verifMemory()[ref.last.waddr])) {
           o.violate("state_diverged", "clock " + std::to_string(clk) + ": rtl stored " + hx(wdata) + " at " + hx(waddr) + " (now " + hx(sv.mem()[waddr & (RTLW - 1)]) + "), simulator " + hx(p->verifMemory()[ref.last.waddr]) + " at " + hx(ref.last.waddr), "state_diverged:store");
           break;
         }
       }
-      if (ref.last.syscall && ref.last.wrote && sv.mem()[ref.last.waddr] != p->verifMemory()[ref.last.waddr]) {
+      if (!three && ref.last.syscall && ref.last.wrote && sv.mem()[ref.last.waddr] != p->verifMemory()[ref.last.waddr]) {
         o.violate("io_history_differs", "clock " + std::to_string(clk) + ": READ stored " + hx(sv.mem()[ref.last.waddr]) + " in the RTL memory and " + hx(p->verifMemory()[ref.last.waddr]) + " in the simulator", "io_history_differs:read");
         break;
       }
       if (three) { compareReplicas(o, clk, "after edge"); if (o.violated) break; if (we && (g_v->mem()[waddr] != wdata || g_sy->mem()[waddr] != wdata)) { o.violate("state_diverged", "replica stored word differs at clock " + std::to_string(clk), "state_diverged:replica_store"); break; } }
       sim::g_log.state(((uint64_t)sv.pc() << 32) | sv.areg(), ((uint64_t)sv.breg() << 32) | sv.oreg());
       if (ref.last.exited) {
+        if (three) { o.note = "completed:exit"; ended = true; clk++; break; }
         if (!rtlExit || rtlExitValue != (uint32_t)rv) { o.violate("outcome_differs", "exit value rtl " + std::to_string(rtlExitValue) + " simulator " + std::to_string(rv), "outcome_differs:exit"); break; }
         o.note = "completed:exit"; ended = true; clk++;
         break;
       }
-      if ((clk & 4095) == 4095 && std::memcmp(sv.mem(), p->verifMemory(), (size_t)W * 4) != 0) { o.violate("state_diverged", "full-memory comparison failed at clock " + std::to_string(clk), "state_diverged:memory"); break; }
+      if (!three && (clk & 4095) == 4095 && std::memcmp(sv.mem(), p->verifMemory(), (size_t)W * 4) != 0) { o.violate("state_diverged", "full-memory comparison failed at clock " + std::to_string(clk), "state_diverged:memory"); break; }
     }
-    if (!o.violated && o.note.compare(0, 14, "cut:oracle_fai") != 0) {
+    if (!o.violated && three) {
+      if (!ended && o.note == "completed") o.note = "completed:budget";
+      if (std::memcmp(g_v->mem(), sv.mem(), (size_t)RTLW * 4) || std::memcmp(g_sy->mem(), sv.mem(), (size_t)RTLW * 4)) o.violate("state_diverged", "replica memories differ at the end", "state_diverged:replica_memory");
+    } else if (!o.violated && o.note.compare(0, 14, "cut:oracle_fai") != 0) {
       if (!ended && o.note == "completed") o.note = "completed:budget";
       if (std::memcmp(sv.mem(), p->verifMemory(), (size_t)W * 4) != 0) o.violate("state_diverged", "full-memory comparison failed at the end", "state_diverged:memory");
       else if (three && (std::memcmp(g_v->mem(), sv.mem(), (size_t)RTLW * 4) || std::memcmp(g_sy->mem(), sv.mem(), (size_t)RTLW * 4))) o.violate("state_diverged", "replica memories differ at the end", "state_diverged:replica_memory");
@@ -750,12 +787,49 @@ public:
 
   //----------------------------- C16 free mode -------------------------------------------------
   // No domain monitor: every instruction byte and state is allowed; only the replicas are compared.
+  // A run is a list of "tp" steps: jump all replicas to one state, put one word under the pc, clock n
+  // times.  In a batch the list is expanded from free{seed,...}; a replay file holds it explicitly so
+  // that the shrinker can cut it down to the one step that matters.
+  struct Tp { uint32_t pc, a, b, o, mval; unsigned clocks; uint32_t readval; bool pulse; };
+
+  static std::vector<Tp> expandFree(uint64_t seed, uint64_t period, uint64_t maxSteps) {
+    static const uint32_t corner[] = {0, 1, 0x7FFFFFFF, 0x80000000u, 0xFFFFFFFFu, 0xFFFFFFF0u, 0xFFFFFF00u, 0x000FFFFF, 0x00100000, 0x001FFFFF, 0x00200000, 0x0007FFFF, 0x00080000};
+    Rng r(sim::mix64(seed, 77));
+    auto val = [&]() -> uint32_t { return r.chance(1, 3) ? corner[r.below(sizeof corner / sizeof corner[0])] : r.chance(1, 3) ? (uint32_t)r.below(1 << 21) : r.u32(); };
+    std::vector<Tp> v;
+    for (uint64_t clk = 0; clk < maxSteps; clk += period) {
+      Tp t;
+      t.pc = val(); t.a = val(); t.b = val(); t.o = r.chance(1, 2) ? 0 : val();
+      t.mval = r.u32(); t.clocks = (unsigned)period; t.readval = r.u32() & 0xFF; t.pulse = r.chance(1, 40);
+      v.push_back(t);
+    }
+    return v;
+  }
+  static Json tpToJson(const Tp &t) {
+    Json j = Json::object();
+    j["op"] = "tp"; j["pc"] = t.pc; j["areg"] = t.a; j["breg"] = t.b; j["oreg"] = t.o; j["mval"] = t.mval;
+    j["clocks"] = t.clocks; j["readval"] = t.readval; j["pulse"] = t.pulse;
+    return j;
+  }
+
   Outcome runFree(const Json &plan, const PlanView &v) {
     Outcome o;
     sim::g_log.reset(sim::g_log.keep);
-    uint64_t seed = 0, period = 3; bool undef = true;
-    for (auto &op : plan.at("ops").a) if (op.getStr("op") == "free") { seed = op.getU64("seed"); period = 1 + op.getU64("period") % 8; undef = op.getBool("undef", true); }
-    Rng r(sim::mix64(seed, 77));
+    std::vector<Tp> tps;
+    bool undef = true;
+    for (auto &op : plan.at("ops").a) {
+      std::string k = op.getStr("op");
+      if (k == "free") {
+        undef = op.getBool("undef", true);
+        std::vector<Tp> e = expandFree(op.getU64("seed"), 1 + op.getU64("period") % 8, v.maxSteps);
+        tps.insert(tps.end(), e.begin(), e.end());
+      } else if (k == "tp") {
+        Tp t;
+        t.pc = (uint32_t)op.getU64("pc"); t.a = (uint32_t)op.getU64("areg"); t.b = (uint32_t)op.getU64("breg"); t.o = (uint32_t)op.getU64("oreg");
+        t.mval = (uint32_t)op.getU64("mval"); t.clocks = 1 + (unsigned)((op.getU64("clocks") + 7) % 8); t.readval = (uint32_t)op.getU64("readval") & 0xFF; t.pulse = op.getBool("pulse");
+        tps.push_back(t);
+      } else if (k == "free_cfg") undef = op.getBool("undef", true);
+    }
     Rtl<Vsv> &a = *g_sv; Rtl<Vv> &b = *g_v; Rtl<Vsy> &c = *g_sy;
     // Same memory in all replicas; different register garbage, then reset.
     fillGarbage(a.mem(), RTLW, sim::mix64(v.poweron, 5));
@@ -763,9 +837,11 @@ public:
       // Bias the first 4096 words toward defined opcodes.
       for (uint32_t k = 0; k < 4096; k++) { uint32_t w = a.mem()[k]; for (int q = 0; q < 4; q++) if (((w >> (8 * q + 4)) & 15) == 0xC) w ^= 0x10u << (8 * q); a.mem()[k] = w; }
     }
-    std::memcpy(b.mem(), a.mem(), (size_t)RTLW * 4);
-    std::memcpy(c.mem(), a.mem(), (size_t)RTLW * 4);
-    a.setRegs(r.u32(), r.u32(), r.u32(), r.u32()); b.setRegs(r.u32(), r.u32(), r.u32(), r.u32()); c.setRegs(r.u32(), r.u32(), r.u32(), r.u32());
+    {
+      uint64_t s = sim::mix64(v.poweron, 9);
+      auto g = [&]() { return (uint32_t)sim::splitmix64(s); };
+      a.setRegs(g(), g(), g(), g()); b.setRegs(g(), g(), g(), g()); c.setRegs(g(), g(), g(), g());
+    }
     a.rst(true); b.rst(true); c.rst(true);
     a.edge(); b.edge(); c.edge();
     std::memcpy(b.mem(), a.mem(), (size_t)RTLW * 4);
@@ -773,40 +849,41 @@ public:
     a.rst(false); b.rst(false); c.rst(false);
     a.settle(); b.settle(); c.settle();
     compareReplicas(o, 0, "after reset");
-    static const uint32_t corner[] = {0, 1, 0x7FFFFFFF, 0x80000000u, 0xFFFFFFFFu, 0xFFFFFFF0u, 0xFFFFFF00u, 0x000FFFFF, 0x00100000, 0x001FFFFF, 0x00200000, 0x0007FFFF, 0x00080000};
-    auto val = [&]() -> uint32_t { return r.chance(1, 3) ? corner[r.below(sizeof corner / sizeof corner[0])] : r.chance(1, 3) ? (uint32_t)r.below(1 << 21) : r.u32(); };
     std::set<uint32_t> seenOps;
     uint64_t clk = 0;
-    for (; clk < v.maxSteps && !o.violated; clk++) {
-      if (clk % period == 0) {
-        uint32_t pc = val(), ar = val(), br = val(), orr = r.chance(1, 2) ? 0 : val();
-        uint32_t maddr = (pc & 0x1FFFFF) >> 2, mval = r.u32();
-        a.setRegs(pc, ar, br, orr); b.setRegs(pc, ar, br, orr); c.setRegs(pc, ar, br, orr);
-        a.mem()[maddr] = mval; b.mem()[maddr] = mval; c.mem()[maddr] = mval;
-        a.settle(); b.settle(); c.settle();
-        o.count("fault.teleport_fired");
+    for (size_t ti = 0; ti < tps.size() && !o.violated; ti++) {
+      const Tp &t = tps[ti];
+      uint32_t maddr = (t.pc & 0x1FFFFF) >> 2;
+      a.setRegs(t.pc, t.a, t.b, t.o); b.setRegs(t.pc, t.a, t.b, t.o); c.setRegs(t.pc, t.a, t.b, t.o);
+      a.mem()[maddr] = t.mval; b.mem()[maddr] = t.mval; c.mem()[maddr] = t.mval;
+      a.settle(); b.settle(); c.settle();
+      o.count("fault.teleport_fired");
+      for (unsigned q = 0; q < t.clocks && !o.violated; q++, clk++) {
+        uint8_t inst = (uint8_t)(a.mem()[(a.pc() >> 2) & (RTLW - 1)] >> ((a.pc() & 3) * 8));
+        if (seenOps.insert(inst | ((a.oreg() ? 1u : 0u) << 8) | ((a.areg() == 0 ? 0u : (int32_t)a.areg() < 0 ? 1u : 2u) << 9)).second) {
+          char kb[48]; std::snprintf(kb, sizeof kb, "free inst=%02x oreg%s a=%s", inst, a.oreg() ? "!=0" : "=0", aClass(a.areg()));
+          o.stateKeys.push_back(kb);
+        }
+        compareOutputs(o, clk);
+        if (o.violated) break;
+        bool we = a.dValid() && a.dWe();
+        uint32_t waddr = a.dAddr();
+        bool sys = a.sysValid();
+        uint32_t sp = a.mem()[1];
+        a.edge(); b.edge(); c.edge();
+        if (sys) {
+          // READ-like perturbation by the environment: the same word written into every replica.
+          uint32_t at = (sp + 1) & (RTLW - 1);
+          a.mem()[at] = t.readval; b.mem()[at] = t.readval; c.mem()[at] = t.readval;
+          a.settle(); b.settle(); c.settle();
+          o.count("probe.syscall_seen");
+        }
+        compareReplicas(o, clk, "after edge");
+        if (o.violated) break;
+        if (we && (a.mem()[waddr] != b.mem()[waddr] || a.mem()[waddr] != c.mem()[waddr])) { o.violate("state_diverged", "stored word differs between replicas at clock " + std::to_string(clk), "state_diverged:replica_store"); break; }
+        sim::g_log.state(((uint64_t)a.pc() << 32) | a.areg(), ((uint64_t)a.breg() << 32) | a.oreg());
       }
-      uint8_t inst = (uint8_t)(a.mem()[(a.pc() >> 2) & (RTLW - 1)] >> ((a.pc() & 3) * 8));
-      if (seenOps.insert(inst | ((a.oreg() ? 1u : 0u) << 8) | ((a.areg() == 0 ? 0u : (int32_t)a.areg() < 0 ? 1u : 2u) << 9)).second) {
-        char kb[48]; std::snprintf(kb, sizeof kb, "free inst=%02x oreg%s a=%s", inst, a.oreg() ? "!=0" : "=0", aClass(a.areg()));
-        o.stateKeys.push_back(kb);
-      }
-      compareOutputs(o, clk);
-      if (o.violated) break;
-      bool we = a.dValid() && a.dWe();
-      uint32_t waddr = a.dAddr();
-      if (a.sysValid()) {
-        // READ-like perturbation by the environment: the same word written into every replica.
-        uint32_t sp = a.mem()[1], vv = r.u32() & 0xFF;
-        a.mem()[(sp + 1) & (RTLW - 1)] = vv; b.mem()[(sp + 1) & (RTLW - 1)] = vv; c.mem()[(sp + 1) & (RTLW - 1)] = vv;
-        o.count("probe.syscall_seen");
-      }
-      a.edge(); b.edge(); c.edge();
-      compareReplicas(o, clk, "after edge");
-      if (o.violated) break;
-      if (we && (a.mem()[waddr] != b.mem()[waddr] || a.mem()[waddr] != c.mem()[waddr])) { o.violate("state_diverged", "stored word differs between replicas at clock " + std::to_string(clk), "state_diverged:replica_store"); break; }
-      sim::g_log.state(((uint64_t)a.pc() << 32) | a.areg(), ((uint64_t)a.breg() << 32) | a.oreg());
-      if (r.chance(1, 97)) {
+      if (t.pulse && !o.violated) {
         // Reset pulse at an arbitrary edge.
         a.rst(true); b.rst(true); c.rst(true);
         a.edge(); b.edge(); c.edge();
